@@ -133,7 +133,31 @@ pub struct Case {
     pub threads: Vec<Vec<Op>>,
     pub settle: Settle,
     pub fault_free: bool,
+    /// Injected I/O errors (EIO-style failures of jiff's own file system
+    /// calls): decided per call by a PRNG seeded with `seed`; each call at
+    /// one of `sites` fails with probability `rate/16`.
+    #[serde(default)]
+    pub io: IoFaults,
 }
+
+#[derive(Clone, Debug, Default, PartialEq, Eq, Serialize, Deserialize)]
+pub struct IoFaults {
+    pub seed: u64,
+    pub rate: u8,
+    pub sites: Vec<String>,
+}
+
+pub const IO_SITES: &[&str] = &[
+    "zi.new.open",
+    "zi.new.read",
+    "zi.walk.read_dir",
+    "zi.walk.open",
+    "fs.mtime.open",
+    "fs.mtime.metadata",
+    "cc.new.open",
+    "cc.names.open",
+    "cc.read_at",
+];
 
 /// Name pool: stresses the case-folded sorted index (`_` sorts between
 /// upper- and lower-case letters), nesting, and aliases. No two names are
@@ -475,5 +499,21 @@ pub fn generate(rng: &mut Rng, tier: Tier, force_fault_free: Option<bool>) -> Ca
         _ => Settle::ResetThenGetAll,
     };
 
-    Case { backend, universe, initial, alias, mono, threads, settle, fault_free }
+    // I/O errors: in a third of the fault-injecting runs, at a random subset
+    // of sites ("buggify" style), rarely enough that most operations succeed.
+    let io = if !fault_free && g.rng.chance(1, 3) {
+        let mut sites: Vec<String> = IO_SITES
+            .iter()
+            .filter(|_| g.rng.chance(1, 2))
+            .map(|s| s.to_string())
+            .collect();
+        if sites.is_empty() {
+            sites.push(g.rng.pick(IO_SITES).to_string());
+        }
+        IoFaults { seed: g.rng.next_u64(), rate: *g.rng.pick(&[1u8, 2, 4]), sites }
+    } else {
+        IoFaults::default()
+    };
+
+    Case { backend, universe, initial, alias, mono, threads, settle, fault_free, io }
 }
